@@ -50,7 +50,7 @@ def templates(cls):
          ["groupby", [["as", ["col", "A", N[5]], N[7]]]], ["orderby", [["as", ["col", "A", N[5]], N[7]], ["col", "B", N[6]]]]],
         {"A": T(N[0], N[1], N[2]), "B": T(N[3], None, N[4])})
     t["db_schema_table"] = lambda N: q([["from_", [["src", "A"]]], ["select", [["col", "A", N[3]]]], ["join", [["src", "B"], ["enum", "JoinType", "inner"]], {}, ["using", [["py", N[5]]]]]],
-                                      {"A": T(N[0], [N[1], N[2]], None), "B": T(N[4], ["schema", N[6], ["database", N[7]]], None)})
+                                      {"A": T(N[0], ["schema", N[2], ["schema", N[1], None]], None), "B": T(N[4], ["schema", N[6], ["database", N[7]]], None)})
     t["plain_unaliased"] = lambda N: q([["from_", [["src", "A"]]], ["from_", [["src", "B"]]], ["select", [["col", "A", N[2]], ["col", "B", N[3]], ["py", N[4]]]], ["where", [["eq", ["col", "A", N[2]], ["col", "B", N[3]]]]],
                                         ["groupby", [["py", N[4]]]], ["orderby", [["py", N[5]]]]], {"A": T(N[0]), "B": T(N[1])})
     t["insert"] = lambda N: q([["into", [["src", "A"]]], ["columns", [["py", N[1]], ["col", "A", N[2]]]], ["insert", [["raw", 1], ["raw", 2]]]], {"A": T(N[0], N[3])})
